@@ -513,9 +513,11 @@ fn run_bar_field(seed: u64, idx: u64) -> CaseOut {
     };
     let align = *rng.pick(&[None, Some(Align::Left), Some(Align::Center), Some(Align::Right)]);
     let len = rng.range(1, 1000);
-    let pos = match rng.below(4) {
+    let pos = match rng.below(5) {
         0 => 0,
         1 => len,
+        // beyond the end: the bar is full, never wider than its field
+        4 => len + rng.range(1, 3 * len),
         _ => rng.range(0, len),
     };
     let spec = format!("{{bar:{}{}}}", align.map(|a| a.ch()).unwrap_or(""), width);
